@@ -251,5 +251,80 @@ theorem distL_restrict (keep p q : Acc) (hp : ∀ i x, p i x = true → keep i x
           simp_all
 end
 
+/-! ### the executable path lengths (`reachF`/`distF`, run by the driver) denote the rational ones -/
+mutual
+theorem reachF_val (p : Acc) : ∀ t : T, LensWF t →
+    (reachF p t).map oval = reach p t ∧ (∀ d, reachF p t = some d → OWF d)
+  | .node i x l s [], _ => by
+      by_cases hp : p i x = true <;> simp [reachF, reach, hp, oval, OWF]
+  | .node i x l s (c :: cs), hw => by
+      simp only [LensWF] at hw
+      simp only [reachF, reach]
+      exact reachFL_val p (c :: cs) hw.2
+theorem reachFL_val (p : Acc) : ∀ cs : List T, LensWFL cs →
+    (reachFL p cs).map oval = reachL p cs ∧ (∀ d, reachFL p cs = some d → OWF d)
+  | [], _ => by simp [reachFL, reachL]
+  | c :: cs, hw => by
+      simp only [LensWFL] at hw
+      obtain ⟨a1, a2⟩ := reachF_val p c hw.1
+      obtain ⟨b1, b2⟩ := reachFL_val p cs hw.2
+      have hcl : OWF c.len := by obtain ⟨i, x, l, s, ds⟩ := c; simp only [LensWF] at hw; exact hw.1.1
+      simp only [reachFL, reachL]
+      cases hr : reachF p c with
+      | none => rw [hr] at a1; simp at a1; simp [← a1, b1]; exact b2
+      | some d =>
+        rw [hr] at a1; simp at a1
+        obtain ⟨e, w⟩ := addLen_oval (a2 d hr) hcl
+        simp only [← a1, Option.map_some, e]
+        exact ⟨trivial, fun d' hd' => by simp at hd'; subst hd'; exact w⟩
+end
+
+mutual
+theorem distF_val (p q : Acc) : ∀ t : T, LensWF t → (distF p q t).map oval = dist p q t
+  | .node i x l s cs, hw => by
+      simp only [LensWF] at hw
+      simp only [distF, dist]
+      exact distFL_val p q cs hw.2
+theorem distFL_val (p q : Acc) : ∀ cs : List T, LensWFL cs → (distFL p q cs).map oval = distL p q cs
+  | [], _ => by simp [distFL, distL]
+  | c :: cs, hw => by
+      simp only [LensWFL] at hw
+      obtain ⟨a1, a2⟩ := reachF_val p c hw.1
+      obtain ⟨b1, b2⟩ := reachF_val q c hw.1
+      obtain ⟨c1, c2⟩ := reachFL_val p cs hw.2
+      obtain ⟨d1, d2⟩ := reachFL_val q cs hw.2
+      have hcl : OWF c.len := by obtain ⟨i, x, l, s, ds⟩ := c; simp only [LensWF] at hw; exact hw.1.1
+      have ih := distFL_val p q cs hw.2
+      have it := distF_val p q c hw.1
+      simp only [distFL, distL]
+      cases hp : reachF p c with
+      | none =>
+        rw [hp] at a1; simp at a1
+        cases hq : reachF q c with
+        | none => rw [hq] at b1; simp at b1; simp [← a1, ← b1, ih]
+        | some y =>
+          rw [hq] at b1; simp at b1
+          simp only [← a1, ← b1, ← c1]
+          cases hx : reachFL p cs with
+          | none => simp
+          | some x' =>
+            obtain ⟨e1, w1⟩ := addLen_oval (b2 y hq) hcl
+            obtain ⟨e2, _⟩ := addLen_oval (c2 x' hx) w1
+            simp [e2, e1]
+      | some x' =>
+        rw [hp] at a1; simp at a1
+        cases hq : reachF q c with
+        | some y => rw [hq] at b1; simp at b1; simp [← a1, ← b1, it]
+        | none =>
+          rw [hq] at b1; simp at b1
+          simp only [← a1, ← b1, ← d1]
+          cases hy : reachFL q cs with
+          | none => simp
+          | some y' =>
+            obtain ⟨e1, w1⟩ := addLen_oval (a2 x' hp) hcl
+            obtain ⟨e2, _⟩ := addLen_oval w1 (d2 y' hy)
+            simp [e2, e1]
+end
+
 end Aux
 end DendroModel.C08
